@@ -121,7 +121,7 @@ Lemma d19_refuted :
     assigned_targets 0 tr = [] /\
     nth_error evs 21 = Some (ECC 0 9 1 false) /\
     option_map msgs_of (nth_error tr 21) = Some [ {| maddr := 2; mvalue := VFloat (bi_float {| bmin := (-3, -1); bmax := (11, -2) |} 9) |} ] /\
-    quiescent evs tr = false.
+    nocross evs tr = false.
 Proof.
   exists d19_ports, d19_history.
   eexists. eexists.
@@ -129,15 +129,15 @@ Proof.
   vm_compute. repeat split; reflexivity.
 Qed.
 
-(* a fully synchronous history is quiescent and does what the text says *)
+(* a fully synchronous history is nocross and does what the text says *)
 Definition sync_history : list event :=
   [ EMap 1 true; EDelR; ECC 5 64 1 false; EDelN; EDelR; ECC 5 127 1 false;
     EMap 1 false; EDelR; ECC 6 3 1 false; EDelN; EDelR; ECC 6 5 1 false;
     EUnmap 1 true; EDelR; ECC 5 1 1 false ].
 
-Lemma quiescent_nonvacuous :
+Lemma nocross_nonvacuous :
   exists tr fin, run d19_ports world0 sync_history = (tr, Some fin) /\
-    quiescent sync_history tr = true /\
+    nocross sync_history tr = true /\
     assigned_targets 5 tr = [(1, true)] /\ assigned_targets 6 tr = [(1, false)] /\
     option_map msgs_of (nth_error tr 11) =
       Some [ {| maddr := 1; mvalue := VFloat (bi_float {| bmin := (0, 0); bmax := (1, 0) |} (127 * 128 + 5)) |} ] /\
